@@ -14,7 +14,7 @@ def check(tier, seed):
     cases = []
     jobs, idx = [], []
     for s in fam.SETS:
-        for i, xi in enumerate(fam.boundary_seeds(s, 2) + fam.seeds(rng, n)):
+        for i, xi in enumerate(fam.boundary_seeds(s, 2) + fam.rare_keygen_seeds(s) + fam.seeds(rng, n)):
             jobs.append(('keygen', s, xi)); idx.append((s, xi, i))
     refs = fam.ref_map(jobs)
     for (s, xi, i), (pk, sk) in zip(idx, refs):
@@ -29,6 +29,13 @@ def check(tier, seed):
         for eta in (2, 4):
             r66 = bytes(rng.randrange(256) for _ in range(66))
             cases.append({'line': f"rej_bounded_poly 0 {eta} {r66.hex()}", 'tag': f'rej_bounded_poly eta={eta}', 'want': ",".join(str(x) for x in R.rej_bounded_poly(eta, r66)), 'model': t == 0})
+    # the specific RejBoundedPoly calls of the corpus seeds that need a third SHAKE256 block (eta = 4)
+    for e in fam.rare_inputs().get('keygen65_long_rejection', []):
+        xi = bytes.fromhex(e['xi'])
+        p65 = R.PARAMS['65']
+        rhop = R.H(xi + bytes([p65['k'], p65['l']]), 128)[32:96]
+        r66 = rhop + bytes([e['poly'], 0])
+        cases.append({'line': f"rej_bounded_poly 0 4 {r66.hex()}", 'tag': 'rej_bounded_poly eta=4 needing a third XOF block', 'want': ",".join(str(x) for x in R.rej_bounded_poly(4, r66)), 'model': True})
     core.run_and_judge(rep, cases, model_every=0)
     return core.finish(rep, b, 'proof', {
         'rule': 'one case per (set, seed, entry point); seeds include all-00, all-FF and random; non-trivial = distinct seed whose output was compared byte-for-byte with the Python transcription of Algorithm 6',
